@@ -299,6 +299,17 @@ func runSequence(h *vh.H, r vh.R, ci int, pname string, db database.Database, sm
 			} else {
 				prefix, start = genStr(r, 0, 2, small), genStr(r, 0, 2, small)
 			}
+			if small == 2 && len(m) > 0 && r.IntN(6) == 0 {
+				// a prefix that ends in 0xFF bytes and whose successor (the exclusive upper end of its range: last non-0xFF byte
+				// plus one, truncated there) is an existing key: that key is just outside the range
+				ks, _ := m.iterate("", "")
+				if k := ks[r.IntN(len(ks))]; len(k) > 0 && k[len(k)-1] > 0 {
+					prefix = append([]byte(k[:len(k)-1]), k[len(k)-1]-1)
+					prefix = append(prefix, bytes.Repeat([]byte{0xFF}, 1+r.IntN(2))...)
+					start = nil
+					h.Inc("iterations_with_a_prefix_ending_in_FF_below_an_existing_key")
+				}
+			}
 			ps, ss := string(prefix), string(start)
 			note("iterate(%q,%q)", ps, ss)
 			wk, wv := m.iterate(ps, ss)
